@@ -1093,6 +1093,323 @@ HEFF_KINDS = {"heff-site": run_heff_site, "heff-bond": run_heff_bond, "heff-env"
               "heff-threshold": run_heff_threshold, "heff-herm": run_heff_herm, "ratc": run_ratc}
 
 
+
+# =====================================================================================================================
+# xp19 extension — polynomial exactness of the Krylov basis and the a-priori accuracy bound
+#   (Lemmas/KrylovPoly.lean, Lemmas/ExpTail.lean, Lemmas/KrylovBound.lean; theorems krylov_poly_exact, arnoldi_poly_exact,
+#    krylov_error_bound(_code), krylov_error_default of Props/C19.lean section 8)
+# kind polyexact : the REAL expm_krylov / expm_arnoldi run with the scalar function `exp` of their module replaced by a random
+#                  polynomial q (module attribute `np` resp. `scipy.linalg.expm` wrapped; the convergence exit forced at a chosen
+#                  iteration through the module-level `abs`): every return path of the code (converged / cached-exhausted / fresh /
+#                  breakdown) must reproduce q(-i dt A) vec for deg q < number of vectors used.  Oracle 1e-9 relative.
+#                  Also from the captured alpha / beta / V of the same run: the recurrence A V = V T on all columns but the last
+#                  (hypothesis of krylov_poly_exact; spec tie) and q(A) vec = nrm V q(T) e_1 by Horner on the dense T.
+# kind apriori   : measured error of the real expm_krylov (true exponential) vs scipy.linalg.expm is at most the proved bound
+#                  2 ||vec|| tail_k(|dt| ||A||_2), k = number of Lanczos vectors the run used; ||T||_2 <= ||A||_2.
+# =====================================================================================================================
+XP_SPEC = {"recurrence": {"n": 0, "bad": 0, "worst": 0.0, "detail": ""}, "tnorm": {"n": 0, "bad": 0, "worst": 0.0, "detail": ""},
+           "arnoldi-recurrence": {"n": 0, "bad": 0, "worst": 0.0, "detail": ""}}
+
+
+def xp_spec_note(which, resid, tol, detail):
+    s = XP_SPEC[which]
+    s["n"] += 1
+    s["worst"] = max(s["worst"], float(resid))
+    if not resid <= tol:
+        s["bad"] += 1
+        s["detail"] = detail
+
+
+class _NpShim:
+    """stands in for the name `np` inside matrix_exponential: everything is numpy's, except `exp`"""
+
+    def __init__(self, fexp):
+        self.exp = fexp
+
+    def __getattr__(self, name):
+        return getattr(np, name)
+
+
+def poly_eval(coef, z):
+    """Horner, elementwise on an array of scalars"""
+    z = np.asarray(z, dtype=complex)
+    out = np.zeros_like(z) + coef[-1]
+    for c in coef[-2::-1]:
+        out = out * z + c
+    return out
+
+
+def poly_mat(coef, mat):
+    """Horner on a square matrix"""
+    n = mat.shape[0]
+    out = coef[-1] * np.eye(n, dtype=complex)
+    for c in coef[-2::-1]:
+        out = out @ mat + c * np.eye(n, dtype=complex)
+    return out
+
+
+def poly_apply(coef, amat, vec):
+    """q(amat) vec by Horner on the vector (the reference: dense matrix, no Krylov space involved)"""
+    out = coef[-1] * vec
+    for c in coef[-2::-1]:
+        out = amat @ out + c * vec
+    return out
+
+
+def run_with_poly(which, op, vec, dt, m_max, coef, stop_at):
+    """the real expm_krylov (which='lanczos') / expm_arnoldi (which='arnoldi') with exp := q and, if stop_at is not None, the
+    convergence test forced to succeed in iteration j = stop_at (tol = 0 and the module's `abs` returns -1 there, so `err < tol`)"""
+    state = {"j": -1}
+
+    def wop(x):
+        state["j"] += 1
+        return op(x)
+
+    def fake_abs(x):
+        return -1.0 if stop_at is not None and state["j"] == stop_at else abs(x)
+
+    mexp.abs = fake_abs
+    try:
+        if which == "lanczos":
+            shim = _NpShim(lambda z: poly_eval(coef, z))
+            np0 = mexp.np
+            mexp.np = shim
+            try:
+                out, rec = trace_lanczos(wop, vec.copy(), dt, m_max, 0.0)
+            finally:
+                mexp.np = np0
+        else:
+            scipy.linalg.expm = lambda mat: poly_mat(coef, np.asarray(mat, dtype=complex))
+            rec = {"h": None}
+            orig_comp = mexp._compute_arnoldi_result  # noqa: SLF001
+
+            def comp(h_mat, v_mat, nrm, dt_):
+                rec["fresh"] = True
+                rec["h"], rec["v"] = np.array(h_mat), np.array(v_mat)
+                return orig_comp(h_mat, v_mat, nrm, dt_)
+
+            mexp._compute_arnoldi_result = comp  # noqa: SLF001
+            try:
+                try:
+                    out = mexp.expm_arnoldi(wop, vec.copy(), dt, m_max, 0.0)
+                except Exception as e:  # noqa: BLE001
+                    out = type(e).__name__
+            finally:
+                scipy.linalg.expm = EXPM
+                mexp._compute_arnoldi_result = orig_comp  # noqa: SLF001
+    finally:
+        del mexp.abs
+    rec["matvec"] = state["j"] + 1
+    return out, rec
+
+
+def run_polyexact(inp):
+    rng = random.Random(inp["sub"])
+    nprng = np.random.default_rng(inp["sub"])
+    which = inp.get("which", "lanczos")
+    n = rng.randint(6, 40)
+    x = rng.choice([0.3, 1.0, 2.0, 3.0])                      # |dt| * ||A||_2
+    dt = rng.choice([1, -1]) * rng.choice([0.05, 0.2, 1.0])
+    if which == "lanczos":
+        lam = nprng.uniform(-1.0, 1.0, size=n)
+        lam[rng.randrange(n)] = rng.choice([-1.0, 1.0])
+        if rng.random() < 0.3:
+            lam = np.abs(lam)                                  # one-sided spectrum
+        a, u = hermitian_with_spectrum(nprng, lam * x / abs(dt))
+    else:
+        a = nprng.normal(size=(n, n)) + 1j * nprng.normal(size=(n, n))
+        a = a / np.linalg.norm(a, 2) * x / abs(dt)
+    path = inp["path"]
+    vec = (nprng.normal(size=n) + 1j * nprng.normal(size=n)) * rng.choice([1.0, 1e-3, 37.0])
+    stop_at = None
+    if path == "exhausted":                                    # cached eigendecomposition of the last error check (m_max >= 2)
+        m_max = rng.randint(2, min(n, 12))
+        k_want = m_max
+    elif path == "fresh":                                      # m_max = 1: _compute_krylov_result / _compute_arnoldi_result
+        m_max, k_want = 1, 1
+    elif path == "converged":                                  # `err < tol` branch, forced in iteration j = k - 1
+        m_max = rng.randint(3, min(n, 14))
+        k_want = rng.randint(2, m_max - 1) if which == "lanczos" else rng.randint(2, m_max)
+        stop_at = k_want - 1
+    else:                                                      # breakdown: start in an invariant subspace of dimension r
+        r = rng.randint(1, min(5, n - 2))
+        if which == "lanczos":
+            idx = nprng.choice(n, size=r, replace=False)
+            vec = u[:, idx] @ (nprng.normal(size=r) + 1j * nprng.normal(size=r) + 0.5)
+        else:
+            w_, vr = np.linalg.eig(a)
+            idx = nprng.choice(n, size=r, replace=False)
+            vec = vr[:, idx] @ (nprng.normal(size=r) + 1j * nprng.normal(size=r) + 0.5)
+        m_max = rng.randint(r + 2, min(n, r + 8))
+        k_want = r
+    nrm = float(np.linalg.norm(vec))
+    # degree: the largest the theorem covers (k - 1); after a breakdown the space is invariant and any degree is exact
+    deg = k_want - 1 if path != "breakdown" else rng.randint(k_want, 2 * k_want + 2)
+    coef = [(nprng.normal() + 1j * nprng.normal()) / float(np.prod(np.arange(1, j + 1))) for j in range(deg + 1)]   # c_j ~ 1/j!
+    if abs(coef[-1]) < 0.2 / float(np.prod(np.arange(1, deg + 1))):
+        coef[-1] = (1.0 + 0.5j) / float(np.prod(np.arange(1, deg + 1)))
+    op = (lambda y: a @ y)
+    out, rec = run_with_poly(which, op, vec, dt, m_max, coef, stop_at)
+    probs = []
+    tag = f"{which} {path} n={n} m_max={m_max} k_want={k_want} deg={deg} |dt|*norm={x}"
+    if isinstance(out, str):
+        return {"req": None, "impl": None, "kind": f"polyexact-{which}-{path}", "sig": f"polyexact:{which}:{path}:raised",
+                "oracle": {"ok": False, "detail": f"raised {out} ({tag})"}}
+    k = rec["matvec"]
+    z = -1j * dt
+    zc = [c * z ** j for j, c in enumerate(coef)]              # q(z X) = sum (c_j z^j) X^j
+    ref = poly_apply(zc, a, vec)
+    scale = nrm * sum(abs(c) * x ** j for j, c in enumerate(coef))
+    err = float(np.linalg.norm(out - ref)) / scale
+    if k != k_want and path != "breakdown":
+        probs.append(f"the run used {k} vectors, the forced exit asks for {k_want}")
+    # a breakdown is detected against an absolute threshold (eps_cut = 100 n eps resp. 1e-12): for ||A|| >> 1 the residual of an invariant
+    # start may stay above it and the loop goes on — then only deg < k is covered by the theorem
+    broke = path == "breakdown" and k < m_max and (bool(rec.get("fresh")) if which == "arnoldi" else rec.get("fresh", 0) > 0)
+    covered = deg < k or broke
+    if covered and not err <= 1e-9:
+        probs.append(f"q(-i dt A) vec not reproduced: relative error {err:.2e} for deg q = {deg} < k = {k}")
+    # sharpness probe (not judged): one degree more is in general not exact
+    sharp = None
+    if path in ("exhausted", "converged") and k == k_want:
+        coef2 = coef + [(0.7 - 0.4j) / float(np.prod(np.arange(1, deg + 2)))]
+        out2, _ = run_with_poly(which, op, vec, dt, m_max, coef2, stop_at)
+        if not isinstance(out2, str):
+            zc2 = [c * z ** j for j, c in enumerate(coef2)]
+            sharp = float(np.linalg.norm(out2 - poly_apply(zc2, a, vec))) / (nrm * sum(abs(c) * x ** j for j, c in enumerate(coef2)))
+    # the captured basis and small matrix of the same run: recurrence (hypothesis of the theorem) and Horner on the dense T
+    err_vt = None
+    if which == "lanczos":
+        it, vb = rec.get("last"), rec.get("vbase")
+        if it is not None and vb is not None and it["k"] == k and np.asarray(vb).ndim == 2:
+            v = np.asarray(vb)[:, :k]
+            t = np.diag(it["alpha"]).astype(complex) + np.diag(it["beta"], 1) + np.diag(it["beta"], -1)
+            if k >= 2:
+                res = float(np.linalg.norm(a @ v[:, : k - 1] - v @ t[:, : k - 1])) / max(1e-300, float(np.linalg.norm(a, 2)))
+                xp_spec_note("recurrence", res, 1e-10, f"|A V - V T| on the first k-1 columns = {res:.2e} ({tag})")
+            e0 = np.zeros(k, dtype=complex)
+            e0[0] = 1.0
+            err_vt = float(np.linalg.norm(nrm * (v @ poly_apply(zc, t, e0)) - ref)) / scale
+            if covered and not err_vt <= 1e-9:
+                probs.append(f"nrm V q(T) e_1 (captured alpha, beta, V; Horner) differs from q(A) vec by {err_vt:.2e} for deg {deg} < k = {k}")
+    elif rec.get("h") is not None and path in ("fresh", "exhausted") and rec["h"].shape[0] == k:
+        h_, v_ = rec["h"], rec["v"]
+        if k >= 2:
+            res = float(np.linalg.norm(a @ v_[:, : k - 1] - v_ @ h_[:, : k - 1])) / max(1e-300, float(np.linalg.norm(a, 2)))
+            xp_spec_note("arnoldi-recurrence", res, 1e-10, f"|A V - V H| on the first k-1 columns = {res:.2e} ({tag})")
+        e0 = np.zeros(k, dtype=complex)
+        e0[0] = 1.0
+        err_vt = float(np.linalg.norm(nrm * (v_ @ poly_apply(zc, h_, e0)) - ref)) / scale
+        if covered and not err_vt <= 1e-9:
+            probs.append(f"nrm V q(H) e_1 (captured h, V; Horner) differs from q(A) vec by {err_vt:.2e} for deg {deg} < k = {k}")
+    detail = f"{tag}: k={k} rel err {err:.1e}" + (f", via captured V,T {err_vt:.1e}" if err_vt is not None else "") + \
+        (f", one degree more: {sharp:.1e}" if sharp is not None else "")
+    if not covered:
+        detail += " (not judged: breakdown not detected and deg >= k)"
+    return {"req": None, "impl": None, "kind": f"polyexact-{which}-{path}", "sig": f"polyexact:{which}:{path}:{k}:{deg}:{covered}",
+            "oracle": {"ok": not probs, "detail": "; ".join(probs) or detail}, "nontrivial": bool(covered and (broke or (sharp is not None and sharp > 1e-6))),
+            "meta": {"err": err, "err_vt": err_vt, "sharp": sharp, "k": k, "deg": deg}}
+
+
+def exp_tail(m, x):
+    """tail_m(x) = sum_{j >= m} x^j / j!  (x >= 0), summed directly: every term is positive, no cancellation"""
+    term = 1.0
+    for j in range(1, m + 1):
+        term *= x / j
+    tot, j = 0.0, m
+    while term > 1e-320 and (term > 1e-18 * tot or x >= j + 1):
+        tot += term
+        j += 1
+        term *= x / j
+        if j > 5000:
+            break
+    return tot + term
+
+
+def run_apriori(inp):
+    rng = random.Random(inp["sub"])
+    nprng = np.random.default_rng(inp["sub"])
+    n = rng.choice([6, 10, 16, 24, 40, 64, 100])
+    x = rng.choice([0.1, 0.3, 1.0, 2.0, 3.0, 5.0, 8.0])       # |dt| * ||A||_2
+    dt = rng.choice([1, -1]) * rng.choice([0.01, 0.1, 0.5, 2.0])
+    shape = rng.choice(["sym", "sym", "onesided", "clustered", "two"])
+    if shape == "sym":
+        lam = nprng.uniform(-1.0, 1.0, size=n)
+    elif shape == "onesided":
+        lam = nprng.uniform(0.0, 1.0, size=n)
+    elif shape == "clustered":
+        lam = np.concatenate([nprng.normal(-0.9, 0.01, size=n // 2), nprng.normal(0.9, 0.01, size=n - n // 2)])
+    else:
+        lam = np.where(nprng.random(n) < 0.5, -1.0, 1.0) * 1.0
+    lam = lam / float(np.max(np.abs(lam))) * x / abs(dt)
+    a, u = hermitian_with_spectrum(nprng, lam)
+    vec = (nprng.normal(size=n) + 1j * nprng.normal(size=n)) * rng.choice([1.0, 1e-3, 37.0])
+    if rng.random() < 0.15:
+        r = rng.randint(1, min(n, 6))
+        vec = u[:, nprng.choice(n, size=r, replace=False)] @ (nprng.normal(size=r) + 1j * nprng.normal(size=r))
+    m_max = rng.choice([2, 3, 5, 8, 12, 25, 25, 40])
+    tol = rng.choice([1e-12, 1e-12, 1e-8, 1e-4, 1e-2])
+    nrm = float(np.linalg.norm(vec))
+    out, rec = trace_lanczos(lambda y: a @ y, vec.copy(), dt, m_max, tol)
+    if isinstance(out, str):
+        return {"req": None, "impl": None, "kind": "apriori", "sig": "apriori:raised",
+                "oracle": {"ok": False, "detail": f"expm_krylov raised {out} (n={n}, m_max={m_max})"}}
+    k = rec["matvec"]
+    norm_a = float(np.linalg.norm(a, 2))
+    xx = abs(dt) * norm_a
+    exact = EXPM(-1j * dt * a) @ vec
+    err = float(np.linalg.norm(out - exact)) / nrm
+    bound = 2.0 * exp_tail(k, xx)
+    probs = []
+    slack = 1e-9                     # rounding floor of the run itself (observed <= 1e-12, see report), far below every judged bound
+    if not err <= bound * (1 + 1e-9) + slack:
+        probs.append(f"error {err:.3e}*|vec| exceeds the proved bound 2*tail_{k}({xx:.3g}) = {bound:.3e} (n={n}, m_max={m_max}, tol={tol}, shape {shape})")
+    bound2 = None
+    it = rec.get("last")
+    if it is not None and it["k"] == k:
+        t = np.diag(it["alpha"]) + np.diag(it["beta"], 1) + np.diag(it["beta"], -1)
+        norm_t = float(np.linalg.norm(t, 2)) if k > 1 else float(abs(t[0, 0]))
+        rel = norm_t / norm_a - 1.0
+        xp_spec_note("tnorm", max(rel, 0.0), 1e-10, f"||T||_2 / ||A||_2 - 1 = {rel:.2e} (k={k}, n={n})")
+        if rel > 1e-10:
+            probs.append(f"||T||_2 = {norm_t:.6g} exceeds ||A||_2 = {norm_a:.6g}")
+        bound2 = exp_tail(k, xx) + exp_tail(k, abs(dt) * norm_t)
+        if not err <= bound2 * (1 + 1e-9) + slack:
+            probs.append(f"error {err:.3e}*|vec| exceeds the two-tail bound tail_{k}(|dt||A|) + tail_{k}(|dt||T|) = {bound2:.3e}")
+    tight = err / bound if bound > 0 else 0.0
+    return {"req": None, "impl": None, "kind": "apriori", "sig": f"apriori:{k}:{x}:{shape}:{m_max}",
+            "oracle": {"ok": not probs, "detail": "; ".join(probs) or f"n={n} |dt||A|={xx:.3g} k={k} (m_max {m_max}, tol {tol}): err {err:.2e} <= bound {bound:.2e}"
+                                                                       + (f" (two-tail {bound2:.2e})" if bound2 is not None else "")},
+            "nontrivial": bound < 1e-2, "meta": {"err": err, "bound": bound, "bound2": bound2, "k": k, "x": xx, "ratio": tight}}
+
+
+def xp_spec():
+    return [{"name": "hypothesis of krylov_poly_exact on the real run: A V = V T on all columns but the last for the captured alpha, beta, V "
+                     "(relative to ||A||_2; holds to rounding whether or not orthogonality survives)", "ok": XP_SPEC["recurrence"]["bad"] == 0,
+             "n": XP_SPEC["recurrence"]["n"], "worst_residual": XP_SPEC["recurrence"]["worst"], "detail": XP_SPEC["recurrence"]["detail"]},
+            {"name": "hypothesis of arnoldi_poly_exact on the real run: A V = V H on all columns but the last for the captured h, V",
+             "ok": XP_SPEC["arnoldi-recurrence"]["bad"] == 0, "n": XP_SPEC["arnoldi-recurrence"]["n"],
+             "worst_residual": XP_SPEC["arnoldi-recurrence"]["worst"], "detail": XP_SPEC["arnoldi-recurrence"]["detail"]},
+            {"name": "clause (2) of krylov_error_bound on the real run: ||T||_2 <= ||A||_2 for the tridiagonal matrix the code diagonalises",
+             "ok": XP_SPEC["tnorm"]["bad"] == 0, "n": XP_SPEC["tnorm"]["n"], "worst_residual": XP_SPEC["tnorm"]["worst"],
+             "detail": XP_SPEC["tnorm"]["detail"]}]
+
+
+def gen_xp19(rng, tier):
+    n = {"quick": 1.0, "thorough": 8.0, "search": 2.0}.get(tier, 1.0)
+    for path, cnt in (("exhausted", 40), ("converged", 40), ("fresh", 6), ("breakdown", 14)):
+        for _ in range(int(cnt * n)):
+            yield {"kind": "polyexact", "which": "lanczos", "path": path, "sub": rng.randrange(1 << 30)}
+    for path, cnt in (("exhausted", 16), ("converged", 16), ("fresh", 4), ("breakdown", 8)):
+        for _ in range(int(cnt * n)):
+            yield {"kind": "polyexact", "which": "arnoldi", "path": path, "sub": rng.randrange(1 << 30)}
+    for _ in range(int(120 * n)):
+        yield {"kind": "apriori", "sub": rng.randrange(1 << 30)}
+
+
+XP19_KINDS = {"polyexact": run_polyexact, "apriori": run_apriori}
+
+
 def gen(rng, tier):
     n = {"quick": 1.0, "thorough": 10.0, "search": 1.5}.get(tier, 1.0)
     for where in ("below", "at", "above"):
@@ -1113,6 +1430,7 @@ def gen(rng, tier):
     for _ in range(int(9 * n)):
         yield {"kind": "big", "where": rng.choice(["below", "at", "above"]), "sub": rng.randrange(1 << 30)}
     yield from gen_heff(rng, tier)   # x19 extension (drawn after everything else: the earlier stream is unchanged)
+    yield from gen_xp19(rng, tier)   # xp19 extension (again drawn last)
 
 
 def run(inp):
@@ -1147,6 +1465,8 @@ def run_kind(inp):
         return run_fixed(inp)
     if k in HEFF_KINDS:
         return HEFF_KINDS[k](inp)
+    if k in XP19_KINDS:
+        return XP19_KINDS[k](inp)
     raise ValueError(k)
 
 
@@ -1156,7 +1476,7 @@ def spec():
              "worst_residual": SPEC["eigh"]["worst"], "detail": SPEC["eigh"]["detail"]},
             {"name": "Lanczos basis of the real run (V^H V = 1, V^H A V = T on the columns used, away from breakdowns; to 1e-3: orthogonality degrades as Ritz values converge) — hypothesis hV of "
                      "krylov_isometry / lanczos_tridiagonal in floating point", "ok": SPEC["basis"]["bad"] == 0, "n": SPEC["basis"]["n"],
-             "worst_residual": SPEC["basis"]["worst"], "detail": SPEC["basis"]["detail"]}] + heff_spec()
+             "worst_residual": SPEC["basis"]["worst"], "detail": SPEC["basis"]["detail"]}] + heff_spec() + xp_spec()
 
 
 if __name__ == "__main__":
